@@ -1,7 +1,7 @@
 (** C10 -- flattening an N-D array back to 2D inverts the N-D reshape. *)
 From Coq Require Import List Arith Lia Bool.
 Require Import V.Base.ListAux V.Base.CorrAux V.Base.Radix V.Base.Matrix V.Base.NdArray V.Usid.SortOrder V.Usid.ToND V.Usid.ToNDProof V.Usid.FromND
-               V.Usid.Grid V.Usid.FromNDProof V.Usid.GridRoundTrip V.Usid.GridFromNd.
+               V.Usid.Grid V.Usid.FromNDProof V.Usid.GridRoundTrip V.Usid.GridFromNd V.Usid.FromNDOneSided V.Usid.FromNDSqueezed.
 Import ListNotations.
 
 (** Headline.  For ANY number of position / spectroscopic dimensions, ANY sizes >= 1, ANY storage order on either side, ANY
@@ -41,6 +41,67 @@ Theorem C10_transpose_round_trip :
   nd_transpose d (nd_transpose d a0 (inv_perm L)) L = a0.
 Proof. exact @nd_transpose_roundtrip. Qed.
 Print Assumptions C10_transpose_round_trip.
+
+(** One index matrix supplied (the other side is built from the N-D shape; remaining axes of size >= 2): the call equals
+    the two-sided call with the C-order grid of the remaining axes, so the flattened matrix has the same coordinate map:
+    columns (rows) enumerate the remaining axes with the LAST axis fastest. *)
+Theorem C10_position_matrix_only :
+  forall (A : Type) (d : A) (szp sop steps : list nat) (pos : list (list nat)) (b : nd A),
+  wf_grid szp sop -> length szp < prod (radices szp sop) -> 0 < length szp ->
+  Forall (fun s => 2 <= s) steps -> 0 < length steps ->
+  transpose2d 0 pos = grid_spec szp sop -> ncols pos = length szp ->
+  nd_shape b = szp ++ steps -> length (nd_data b) = prod (nd_shape b) ->
+  let scorder := grid_spec steps (rev (seq 0 (length steps))) in
+  let N := prod (radices szp sop) in let M := prod steps in
+  from_nd d b (Some pos) None = from_nd d b (Some pos) (Some scorder) /\
+  exists data, from_nd d b (Some pos) None = Ok (N, M, data) /\ length data = N * M /\
+    forall r c, r < N -> c < M -> nth (r * M + c) data d = nd_get d b (pos_row pos (length szp) r ++ spec_col scorder (length steps) c).
+Proof.
+  intros A d szp sop steps pos b H1 H2 H3 H4 H5 H6 H7 H8 H9. cbv zeta. split.
+  - now apply (pos_only_eq_two_sided d szp sop).
+  - now apply (pos_only_coordinates d szp sop).
+Qed.
+Print Assumptions C10_position_matrix_only.
+
+Theorem C10_spectroscopic_matrix_only :
+  forall (A : Type) (d : A) (szs sos steps : list nat) (b : nd A),
+  wf_grid szs sos -> length szs <= prod (radices szs sos) -> 0 < length szs ->
+  Forall (fun s => 2 <= s) steps -> 0 < length steps ->
+  nd_shape b = steps ++ szs -> length (nd_data b) = prod (nd_shape b) ->
+  let spec := grid_spec szs sos in
+  let pcorder := transpose2d 0 (grid_spec steps (rev (seq 0 (length steps)))) in
+  let N := prod steps in let M := prod (radices szs sos) in
+  from_nd d b None (Some spec) = from_nd d b (Some pcorder) (Some spec) /\
+  exists data, from_nd d b None (Some spec) = Ok (N, M, data) /\ length data = N * M /\
+    forall r c, r < N -> c < M -> nth (r * M + c) data d = nd_get d b (pos_row pcorder (length steps) r ++ spec_col spec (length szs) c).
+Proof.
+  intros A d szs sos steps b H1 H2 H3 H4 H5 H6 H7. cbv zeta. split.
+  - now apply (spec_only_eq_two_sided d szs sos).
+  - now apply (spec_only_coordinates d szs sos).
+Qed.
+Print Assumptions C10_spectroscopic_matrix_only.
+
+(** The squeezed path: one side is the 1 x 1 placeholder whose dummy axis is ABSENT from the N-D array (what USIDataset.reduce
+    hands over after reducing a whole side).  The other side being a regular grid in any storage order with at least two
+    dimensions, the flattened vector is laid out by that grid alone. *)
+Theorem C10_squeezed_position_side :
+  forall (A : Type) (d : A) (szs sos : list nat) (b : nd A),
+  wf_grid szs sos -> length szs <= prod (radices szs sos) -> 2 <= length szs -> nd_shape b = szs ->
+  let spec := grid_spec szs sos in let M := prod (radices szs sos) in
+  exists data, from_nd d b (Some [[0]]) (Some spec) = Ok (1, M, data) /\ length data = M /\
+    forall c, c < M -> nth c data d = nd_get d b (spec_col spec (length szs) c).
+Proof. intros A d szs sos b H1 H2 H3 H4. cbv zeta. now apply (squeezed_pos_coordinates d szs sos). Qed.
+Print Assumptions C10_squeezed_position_side.
+
+Theorem C10_squeezed_spectroscopic_side :
+  forall (A : Type) (d : A) (szp sop : list nat) (pos : list (list nat)) (b : nd A),
+  wf_grid szp sop -> length szp <= prod (radices szp sop) -> 2 <= length szp ->
+  transpose2d 0 pos = grid_spec szp sop -> ncols pos = length szp -> nd_shape b = szp ->
+  let N := prod (radices szp sop) in
+  exists data, from_nd d b (Some pos) (Some [[0]]) = Ok (N, 1, data) /\ length data = N /\
+    forall r, r < N -> nth r data d = nd_get d b (pos_row pos (length szp) r).
+Proof. intros A d szp sop pos b H1 H2 H3 H4 H5 H6. cbv zeta. now apply (squeezed_spec_coordinates d szp sop). Qed.
+Print Assumptions C10_squeezed_spectroscopic_side.
 
 (** Incompatible requests are refused: no matrix at all; a total size that does not match; with one axis per dimension,
     an N-D shape that differs from the sizes the matrices show (e.g. permuted axes). *)
@@ -114,3 +175,9 @@ Example C10_example :
   exists a, to_nd 0 main pos spec false = Ok (a, [0; 1; 2]) /\ nd_shape a = [2; 3; 2] /\
             from_nd 0 a (Some pos) (Some spec) = Ok (6, 2, concat main).
 Proof. cbv zeta. eexists. split; [vm_compute; reflexivity|]. split; vm_compute; reflexivity. Qed.
+
+(** non-vacuity of the squeezed theorems: a 2 x 3 array, first dimension fastest on the present side *)
+Example C10_example_squeezed :
+  from_nd 0 (mkNd [2; 3] [0; 1; 2; 3; 4; 5]) (Some [[0]]) (Some (grid_spec [2; 3] [0; 1])) = Ok (1, 6, [0; 3; 1; 4; 2; 5]) /\
+  from_nd 0 (mkNd [2; 3] [0; 1; 2; 3; 4; 5]) (Some (transpose2d 0 (grid_spec [2; 3] [0; 1]))) (Some [[0]]) = Ok (6, 1, [0; 3; 1; 4; 2; 5]).
+Proof. split; vm_compute; reflexivity. Qed.
